@@ -16,9 +16,17 @@ def integral(x):
     return bool(x.size and x.dtype.kind == "f" and np.all(np.isfinite(x)) and np.all(x == np.round(x)) and np.abs(x).max() < 2 ** 31)
 
 
-def variants(x, lists=True, float32=False, objects=False):
+def variants(x, lists=True, float32=False, objects=False, layouts=False):
     x = np.asarray(x)
     out = []
+    if layouts and x.dtype == np.float64 and x.size:      # the same float64 values in a read-only array and in a strided view of a larger buffer
+        ro = x.copy()
+        ro.setflags(write=False)
+        out.append(("read-only array", ro))
+        big = np.full(x.shape[:-1] + (x.shape[-1] * 2,), 4.75) if x.ndim else None
+        if big is not None:
+            big[..., ::2] = x
+            out.append(("strided view", big[..., ::2]))
     if objects:            # the library's own array classes holding exactly these values, handed over where an array is expected
         import ahrs
         from ahrs.common.dcm import DCM
@@ -54,7 +62,7 @@ def flat(r):
 
 
 def invariant(ctx, route, fn, args, which=None, tol=1e-12, lists=True, clause="the same values in another argument form (list / tuple / integer) give the same result",
-              region=None, skip=(), objects=False, attitude=False):
+              region=None, skip=(), objects=False, attitude=False, layouts=False):
     """attitude=True: results are attitudes - a quaternion and its negative, angles differing by 2 pi are the same answer (a whole-number input has no
     negative zero, so an atan2-based estimator may land on the other side of its +-pi branch cut)."""
     """fn(*args) with float64 arrays is the base; every exact variant of every array argument in `which` is tried."""
@@ -70,7 +78,7 @@ def invariant(ctx, route, fn, args, which=None, tol=1e-12, lists=True, clause="t
     for i, a in enumerate(args):
         if not isinstance(a, np.ndarray) or (which is not None and i not in which):
             continue
-        for lab, v in variants(a, lists=lists, objects=objects):
+        for lab, v in variants(a, lists=lists, objects=objects, layouts=layouts):
             if lab in skip:
                 continue
             alt = list(a2.copy() if isinstance(a2, np.ndarray) else a2 for a2 in args)
@@ -81,7 +89,12 @@ def invariant(ctx, route, fn, args, which=None, tol=1e-12, lists=True, clause="t
                 ctx.ok("an ahrs object handed over as an argument is left unchanged", np.array(np.asarray(v), float).tobytes() == snap and (not hasattr(v, "A") or np.array(v.A, float).tobytes() == snap),
                        {"form": lab, "argument": i}, route=route, region=region)
             if not out.ok:
-                ctx.note("form %s refused/crashed with %s (recorded, not judged)" % (lab, out.exc_name))
+                if lab in ("read-only array", "strided view") and ("read-only" in str(out.exc) or "not contiguous" in str(out.exc)):
+                    # failing BECAUSE the argument cannot be written to / is not contiguous means the function writes into (or re-interprets) the caller's memory
+                    ctx.ok("a read-only or strided float64 argument is processed like any other array", False, {"form": lab, "argument": i, "exc": "%s: %s" % (out.exc_name, str(out.exc)[:100])},
+                           route=route, region=region)
+                else:
+                    ctx.note("form %s refused/crashed with %s (recorded, not judged)" % (lab, out.exc_name))
                 continue
             try:
                 r = flat(out.value)
